@@ -98,6 +98,86 @@ def wf_prog(prog):
         and all(th.count("R") <= 1 for th in prog)
 
 
+def guarded_ok(prog):
+    """class d=2 ("guarded sets"): one thread G (the ready-caller) holds a pending-action reference
+    from its set-up until its last operation p-1; every increment / set of nb_tasks is G's; the
+    other threads only decrement task references they took from G (Gp/Kp are used as a pure
+    'worker done' signal).  set_nb_tasks(v) may race with the workers' decrements: it needs
+    v >= (task references handed out and not known to be returned), G's own decrements stay
+    within what it certainly owns.  For such histories the literal statement of C10 is true of the
+    correct code for every schedule (all increments are sequential in G and G's reference keeps
+    nb_pending_actions >= 1 until its final release)."""
+    gs = [i for i, th in enumerate(prog) if "R" in th]
+    if len(gs) != 1:
+        return False
+    g = prog[gs[0]]
+    if g.count("R") != 1 or not g or g[-1] != "p-1":
+        return False
+    nkt = ngp = 0
+    for i, th in enumerate(prog):
+        if i == gs[0]:
+            continue
+        held = 0
+        for o in th:
+            if o == "Kt":
+                held += 1
+                nkt += 1
+            elif o[0] == "t" and int(o[1:]) < 0:
+                held += int(o[1:])
+                if held < 0:
+                    return False
+            elif o == "Gp":
+                if held != 0:
+                    return False
+                ngp += 1
+            elif o != "Q":
+                return False
+    own = out = 0          # lower bound of G's own task references; handed out, maybe not yet returned
+    hold = 0               # pending-action references G holds
+    exact = True           # nb_tasks == own + (outstanding) is known exactly to be consistent
+    ngt = nkp = 0
+    for j, o in enumerate(g):
+        k = o[0]
+        last = j == len(g) - 1
+        if k in "QR":
+            continue
+        if k in "tT" and hold < 1:
+            if not (k == "T" and out == 0 and hold == 0 and own == 0 and int(o[1:]) == 0):
+                return False
+        if k == "t":
+            v = int(o[1:])
+            own += v
+            if own < 0:
+                return False
+        elif k == "T":
+            v = int(o[1:])
+            if v < out:
+                return False
+            own = v - out
+        elif k == "P":
+            if out or own:
+                return False
+            hold = int(o[1:])
+        elif k == "p":
+            v = int(o[1:])
+            hold += v
+            if hold < (0 if last else 1):
+                return False
+        elif o == "Gt":
+            if own < 1:
+                return False
+            own -= 1
+            out += 1
+            ngt += 1
+        elif o == "Kp":
+            nkp += 1
+            if nkp == ngp:
+                out = 0
+        else:
+            return False
+    return hold == 0 and ngt == nkt and nkp in (0, ngp)
+
+
 class C10(Check):
     id = "C10"
     prop_file = "theories/Properties/Properties_C10.v"
@@ -126,12 +206,14 @@ class C10(Check):
     level_note = ("Trusted: Coq kernel, extraction, cosched/interpose.h (a yield before every parsec_atomic_* RMW, inside the harness "
                   "callback and between two operations), the fake parsec_taskpool_t of harness/h_termlocal.c. Assumes SC atomics and "
                   "int32 counters that do not overflow. Hand-over of references between threads is a harness mailbox (ghost in the "
-                  "model). The taskpool object reference count is modelled and compared but not part of the claims.")
+                  "model). The taskpool object reference count is modelled and compared but not part of the claims. The theorems cover "
+                  "wf_prog; the wider 'guarded set' histories (d=2: set_nb_tasks of the reference-holding ready-caller racing with "
+                  "workers' decrements) are compared with the model and judged by the oracle, not covered by the proofs.")
     technique = ("Coq invariant proof over all schedules and all disciplined programs + controlled-schedule differential run "
                  "(ucontext coroutines, macro-interposed atomics) of the real termdet_local module")
     rule = ("disciplined programs generated by a reference-tracking random walk (1..5 threads, zero crossings of both counters before "
             "ready and of nb_tasks while another reference is held, ready early/middle/late, hand-overs), balanced or leaving a "
-            "reference; schedules sequential / round-robin / bursts / one-step lag / stalls in the middle of an operation / random, and directed races of a decrement with ready; plus an undisciplined stream compared with the model "
+            "reference; schedules sequential / round-robin / bursts / one-step lag / stalls in the middle of an operation / random, and directed races of a decrement with ready; guarded-set programs (set_nb_tasks racing with addto_nb_tasks(-1) across zero, then the release of the last runtime action); when something breaks a failing-schedule search runs the implementation alone over a menu of such programs under every context-bounded schedule and every 11-step schedule of the smallest ones, then random; plus an undisciplined stream compared with the model "
             "only; non-trivial = at least 2 threads and an interleaving schedule; distinct = case text")
     trusted = ("cosched.h/interpose.h scheduling points; fake taskpool, counting callback and mailbox in harness/h_termlocal.c",)
     assumptions = ("sequentially consistent atomics (parsec_atomic_* are full-barrier builtins)",
@@ -320,6 +402,112 @@ class C10(Check):
             prog.append(th)
         return prog
 
+    def guarded(self, r):
+        """random member of the guarded-set class (see guarded_ok)"""
+        nw = r.pick([1, 1, 1, 2, 2, 3])
+        sync = r.chance(1, 2)
+        g = (["T0", "P0"] if r.chance(1, 4) else []) + ["p1"]
+        own = out = 0
+        given = 0
+        body = r.range(2, 7)
+        rpos = r.range(0, body)
+        for i in range(body):
+            if i == rpos:
+                g.append("R")
+            acts = ["t+", "T", "T"]
+            if own >= 1:
+                acts += ["Gt", "Gt", "Gt", "t-"]
+            act = r.pick(acts)
+            if act == "t+":
+                v = r.pick([1, 1, 2])
+                g.append("t%d" % v)
+                own += v
+            elif act == "T":
+                v = out + r.pick([0, 0, 1, 1, 2, 4])
+                g.append("T%d" % v)
+                own = v - out
+            elif act == "Gt":
+                g.append("Gt")
+                own -= 1
+                out += 1
+                given += 1
+            else:
+                v = r.range(1, own)
+                g.append("t-%d" % v)
+                own -= v
+            if r.chance(1, 8):
+                g.append("Q")
+        if "R" not in g:
+            g.append("R")
+        ws = [[] for _ in range(nw)]
+        for _ in range(given):
+            w = ws[r.below(nw)]
+            w += ["Kt", "t-1"]
+        ws = [w for w in ws if w] or [["Q"]]
+        if sync:
+            for w in ws:
+                if "Kt" in w:
+                    w.append("Gp")
+                    g.append("Kp")
+            if r.chance(2, 3):
+                g.append("T0")
+        g.append("p-1")
+        prog = [g] + ws
+        gi = r.below(len(prog))
+        prog[0], prog[gi] = prog[gi], prog[0]
+        return prog
+
+    def menu(self):
+        """small structured programs of the guarded-set class: a set_nb_tasks(v) of G racing with a worker's
+        addto_nb_tasks(-1) that moves nb_tasks across zero, then the release of the last runtime action"""
+        out = []
+        for setup in ("t1 Gt", "t2 Gt", "t1 Gt t1"):
+            for v in (1, 2, 5):
+                for rfirst in (0, 1):
+                    g = "p1 " + setup + (" R T%d" % v if rfirst else " T%d R" % v) + " p-1"
+                    out.append([g.split(), ["Kt", "t-1"]])
+        for v in (1, 5):
+            out.append([("T0 P0 p1 t1 Gt T%d R p-1" % v).split(), ["Kt", "t-1"]])
+            out.append([("p1 t1 Gt T%d Kp T0 R p-1" % v).split(), ["Kt", "t-1", "Gp"]])
+            out.append([("p1 t1 Gt R T%d Kp T0 p-1" % v).split(), ["Kt", "t-1", "Gp"]])
+            out.append([("p1 t1 Gt T%d T%d R p-1" % (v, v + 1)).split(), ["Kt", "t-1"]])
+        out.append(["p1 t1 R T0 p-1".split(), ["Q"]])
+        out.append(["p1 t1 T0 T2 T0 R p-1".split(), ["Q"]])
+        three = []
+        for v in (2, 5):
+            three.append([("p1 t2 Gt Gt T%d R p-1" % v).split(), ["Kt", "t-1"], ["Kt", "t-1"]])
+            three.append([("p1 t1 Gt T%d Gt R p-1" % v).split(), ["Kt", "t-1"], ["Kt", "t-1"]])
+        return out, three
+
+    def bounded_schedules(self, n):
+        """context-bounded enumeration (depth-first over the points at which the running thread is
+        pre-empted): thread 0 runs a steps, then the others, ...; every schedule ends with long runs so that
+        the completion order is fixed too"""
+        tail = 48
+        out = []
+        if n == 2:
+            for a in range(0, 15):
+                for b in range(0, 6):
+                    for c in ([0] if b == 0 else range(0, 4)):
+                        for d in ([0] if c == 0 else range(0, 3)):
+                            pre = [0] * a + [1] * b + [0] * c + [1] * d
+                            out.append(pre + [0] * tail + [1] * tail)
+                            if b and not d:
+                                out.append(pre + [1] * tail + [0] * tail)
+        else:
+            for a in range(0, 15):
+                for (x, y) in ((1, 2), (2, 1)):
+                    for b in range(0, 4):
+                        for c in ([0] if b == 0 else range(0, 4)):
+                            for d in (0, 1):
+                                pre = [0] * a + [x] * b + [y] * c + [0] * d
+                                out.append(pre + [x] * tail + [y] * tail + [0] * tail)
+                                out.append(pre + [0] * tail + [x] * tail + [y] * tail)
+        return out
+
+    def gfmt(self, prog, sched, rc0=2):
+        return "%d | %s | %s | d=2 b=0" % (rc0, " ; ".join(" ".join(th) for th in prog), " ".join(map(str, sched)))
+
     def fmt(self, r, prog, d, b):
         nt = len(prog)
         total = sum(len(th) for th in prog) * 3 // max(nt, 1) + 4
@@ -350,6 +538,13 @@ class C10(Check):
         "1 | T0 P0 p1 t1 Gt t1 Gt R p-1 ; Kt t-1 Q ; Kt t-1 Q | 1 2 0 0 0 0 0 0 0 1 2 1 2 0 0 0 1 2 0 0 | d=1 b=1",
         # set_nb_tasks / set_runtime_actions crossing zero in the set-up phase
         "1 | T2 P1 T0 P1 t1 R t-1 p-1 Q | | d=1 b=1",
+        # guarded sets (d=2): set_nb_tasks racing with a decrement that takes nb_tasks to zero, then the last
+        # runtime action is released: the set must count the 0 -> v crossing it really performed
+        "2 | p1 t1 Gt T5 R p-1 ; Kt t-1 | 0 0 0 0 0 0 0 1 1 1 0 0 0 0 0 0 0 1 1 | d=2 b=0",
+        "2 | p1 t1 Gt T5 R p-1 ; Kt t-1 | 0 0 0 0 0 0 0 1 1 1 1 0 0 0 0 0 0 | d=2 b=0",
+        "2 | p1 t1 Gt R T5 p-1 ; Kt t-1 | 0 0 0 0 0 0 0 0 0 0 1 1 1 0 0 0 0 1 | d=2 b=0",
+        "2 | p1 t1 Gt T5 Kp T0 R p-1 ; Kt t-1 Gp | 0 0 0 0 0 0 0 1 1 1 0 1 1 | d=2 b=0",
+        "2 | p1 t2 Gt Gt T2 R p-1 ; Kt t-1 ; Kt t-1 | 0 0 0 0 0 0 0 0 1 1 1 2 2 2 0 1 2 | d=2 b=0",
         # ready with nothing registered terminates at once
         "1 | R Q | | d=1 b=1",
         # undisciplined: an increment overtakes the CAS (model/implementation comparison only)
@@ -363,6 +558,8 @@ class C10(Check):
         while len(out) < N:
             if r.chance(1, 6):
                 out.append(self.fmt(r, self.undisciplined(r), 0, 0))
+            elif r.chance(1, 5):
+                out.append(self.fmt(r, self.guarded(r), 2, 0))
             else:
                 g = self.disciplined(r)
                 if g is None:
@@ -373,6 +570,8 @@ class C10(Check):
             f = [x.strip() for x in c.split("|")]
             if "d=1" in f[3] and not wf_prog(parse_prog(f[1])):
                 raise RuntimeError("generator produced an undisciplined case tagged d=1: " + c)
+            if "d=2" in f[3] and not (guarded_ok(parse_prog(f[1])) and gk_deadlock_free(parse_prog(f[1]))):
+                raise RuntimeError("generator produced a case outside the guarded-set class tagged d=2: " + c)
         return out
 
     def nontrivial_key(self, case):
@@ -403,8 +602,9 @@ class C10(Check):
     # the property, decided on the implementation's observation alone
     def oracle(self, case, obs):
         f = [x.strip() for x in case.split("|")]
-        if "d=1" not in f[3]:
+        if "d=1" not in f[3] and "d=2" not in f[3]:
             return None          # undisciplined stream: compared with the model only
+        d2 = "d=2" in f[3]       # guarded sets: judged on the implementation's own final counters
         bal = "b=1" in f[3]
         try:
             g = [x.strip() for x in obs.split("|")]
@@ -436,6 +636,10 @@ class C10(Check):
                     return "taskpool_state reported TERMINATED before the callback returned"
                 if x >= 100:
                     return "taskpool_state reported TERMINATED while a counter was non-zero"
+        if rdy > 0 and nt == 0 and pa == 0 and cs != 1:
+            return "both counters are zero after ready but termination was not reported"
+        if d2:
+            return None
         if bal and cs != 1:
             return "all references returned after ready but the callback did not run"
         if bal and mon != 0:
@@ -449,8 +653,26 @@ class C10(Check):
         return "C10-" + "-".join(why.split()[:4]).replace("(", "").replace(")", "")
 
     def search_cases(self):
+        """failing-schedule search, run when a proof obligation or the correspondence broke: the
+        implementation alone is judged by the oracle.  (1) exhaustive: the guarded-set menu under every
+        context-bounded schedule, and every schedule of 11 steps (2 threads) for the smallest programs;
+        (2) random guarded-set programs and random disciplined programs under random schedules."""
         r = self.rng.fork()
         out = []
+        two, three = self.menu()
+        s2, s3 = self.bounded_schedules(2), self.bounded_schedules(3)
+        for prog in two:
+            if len(prog) == 2 and prog[1] != ["Q"]:
+                out += [self.gfmt(prog, sc) for sc in s2]
+            else:
+                out.append(self.gfmt(prog, []))
+        for prog in three:
+            out += [self.gfmt(prog, sc) for sc in s3]
+        for prog in two[:3]:
+            for bits in range(1 << 11):
+                out.append(self.gfmt(prog, [(bits >> i) & 1 for i in range(11)]))
+        for _ in range(2000):
+            out.append(self.fmt(r, self.guarded(r), 2, 0))
         for _ in range(3000):
             g = self.disciplined(r)
             if g is None:
